@@ -196,7 +196,5 @@ def call(f, *a, **k):
         warnings.simplefilter('ignore')
         try:
             return f(*a, **k)
-        except RecursionError:
-            raise
-        except Exception as e:  # noqa
+        except Exception as e:  # noqa  (RecursionError included: unbounded recursion in the code is an exception it raised)
             return Exn(type(e).__name__)
